@@ -24,6 +24,7 @@ TraceInit ==
   /\ cache = e.st.cache /\ cacheOn = e.st.cacheOn /\ paused = e.st.paused
   /\ obs = e.obs
   /\ pend = [c \in Clients |-> NoPend] /\ cur = [k \in Keys |-> -1] /\ gen = 0
+  /\ fails = {} /\ cln = NoCln
   /\ l = 2
 
 Fail(kind, e, name) == PrintT(<<"FAIL", kind, e.t, l, e.a, name>>)
@@ -31,24 +32,36 @@ Chk(ok, kind, e, name) == IF ok THEN TRUE ELSE Fail(kind, e, name)
 
 \* what cannot be observed follows from the calls (same formulas as in Do*)
 Hidden(e) ==
-  CASE e.a = "Open" -> pend' = [c \in Clients |-> NoPend] /\ cur' = [k \in Keys |-> -1] /\ gen' = 0
-    [] e.a = "Set" -> /\ cur' = IF e.obs.err = "" THEN [cur EXCEPT ![e.args.k] = e.args.v] ELSE cur
-                      /\ pend' = Note(e.args.k, e.args.v) /\ gen' = gen + (IF paused THEN 2 ELSE 1)
+  CASE e.a = "Open" -> /\ pend' = [c \in Clients |-> NoPend] /\ cur' = [k \in Keys |-> -1] /\ gen' = 0
+                       /\ fails' = {} /\ cln' = NoCln
+    \* (a SetCursor that was meant to fail but succeeded is a successful one, and vice versa)
+    [] e.a \in {"Set", "SetFail"} ->
+         IF e.obs.err = ""
+         THEN /\ cur' = [cur EXCEPT ![e.args.k] = e.args.v]
+              /\ pend' = Note(e.args.k, e.args.v) /\ gen' = gen + (IF paused THEN 2 ELSE 1)
+              /\ fails' = {f \in fails : f.key # e.args.k}
+              /\ UNCHANGED cln
+         ELSE /\ fails' = fails \cup {[key |-> e.args.k, val |-> e.args.v, off |-> next]}
+              /\ gen' = IF paused THEN gen + 1 ELSE gen
+              /\ UNCHANGED <<cur, pend, cln>>
     [] e.a = "FetchBegin" ->
          /\ pend' = IF e.obs.err = "pending"
-                    THEN [pend EXCEPT ![e.args.c] = [on |-> TRUE, key |-> e.args.k, val |-> Scan(e.args.k),
-                                                     allowed |-> {cur[e.args.k]}, gen |-> gen]]
+                    THEN [pend EXCEPT ![e.args.c] = [on |-> TRUE, key |-> e.args.k, val |-> ScanVal(e.args.k),
+                                                     allowed |-> AllowedNow(e.args.k), gen |-> gen]]
                     ELSE pend
          /\ gen' = IF paused /\ e.obs.err = "pending" THEN gen + 1 ELSE gen
-         /\ UNCHANGED cur
-    [] e.a = "FetchEnd" -> pend' = [pend EXCEPT ![e.args.c] = NoPend] /\ UNCHANGED <<cur, gen>>
+         /\ UNCHANGED <<cur, fails, cln>>
+    [] e.a = "FetchEnd" -> pend' = [pend EXCEPT ![e.args.c] = NoPend] /\ UNCHANGED <<cur, gen, fails, cln>>
     [] e.a = "Fetch" -> /\ gen' = IF paused /\ ~(cacheOn /\ Has(cache, e.args.k)) THEN gen + 1 ELSE gen
-                        /\ UNCHANGED <<pend, cur>>
-    [] e.a = "Restart" -> gen' = 0 /\ UNCHANGED <<pend, cur>>
-    [] OTHER -> UNCHANGED <<pend, cur, gen>>
+                        /\ UNCHANGED <<pend, cur, fails, cln>>
+    [] e.a = "Restart" -> gen' = 0 /\ UNCHANGED <<pend, cur, fails, cln>>
+    [] e.a = "CleanBegin" -> /\ cln' = [on |-> TRUE, dead |-> CompactDead, n |-> Len(segs)]
+                             /\ UNCHANGED <<pend, cur, gen, fails>>
+    [] e.a = "CleanEnd" -> cln' = NoCln /\ UNCHANGED <<pend, cur, gen, fails>>
+    [] OTHER -> UNCHANGED <<pend, cur, gen, fails, cln>>
 
 PropOf(e) ==
-  CASE e.a = "Set" -> P_Set(e.args.k, e.args.v)
+  CASE e.a \in {"Set", "SetFail"} -> P_Set(e.args.k, e.args.v)
     [] e.a = "Fetch" -> P_Fetch(e.args.k)
     [] e.a = "FetchBegin" -> P_FetchBegin(e.args.c, e.args.k)
     [] e.a = "FetchEnd" -> P_FetchEnd(e.args.c)
@@ -59,7 +72,10 @@ ImplOf(e) ==
     [] e.a = "Fetch" -> DoFetch(e.args.k)
     [] e.a = "FetchBegin" -> DoFetchBegin(e.args.c, e.args.k)
     [] e.a = "FetchEnd" -> DoFetchEnd(e.args.c)
+    [] e.a = "SetFail" -> DoSetFail(e.args.k, e.args.v)
     [] e.a = "Clean" -> DoClean
+    [] e.a = "CleanBegin" -> DoCleanBegin
+    [] e.a = "CleanEnd" -> DoCleanEnd
     [] e.a = "Pause" -> DoPause
     [] e.a = "Restart" -> DoRestart
     [] OTHER -> UNCHANGED <<clog, segs, next, hw, cache, cacheOn, paused>>
